@@ -1,6 +1,8 @@
 package main
 
 import (
+	"log"
+	"runtime"
 	"crypto/sha256"
 	"encoding/hex"
 	"encoding/json"
@@ -25,7 +27,14 @@ func verifRoot() string {
 
 type Rng struct{ s uint64 }
 
-func NewRng(seed uint64) *Rng { return &Rng{s: seed*0x9E3779B97F4A7C15 + 0x1234567} }
+// NewRng mixes the seed so that seeds s and s+1 do not produce shifted copies of one stream.
+func NewRng(seed uint64) *Rng {
+	z := seed + 0x9E3779B97F4A7C15
+	z = (z ^ (z >> 30)) * 0xBF58476D1CE4E5B9
+	z = (z ^ (z >> 27)) * 0x94D049BB133111EB
+	z ^= z >> 31
+	return &Rng{s: z ^ 0x1234567}
+}
 func (r *Rng) Next() uint64 {
 	r.s += 0x9E3779B97F4A7C15
 	z := r.s
@@ -363,3 +372,29 @@ func (r *Run) Finish(caseType, mismatchFn string) error {
 	}
 	return os.WriteFile(filepath.Join(r.OutDir, "meta.json"), data, 0o644)
 }
+
+// ---------- log.Fatal trap (all properties) ----------
+// kustomize calls log.Fatal* in a few places (= write to the standard logger, then os.Exit(1)), which would kill
+// the harness process. The standard logger's writer is replaced by one that panics when it is called from
+// log.Fatal*: the panic unwinds before os.Exit is reached and is classified by `protect` as CPanic with a message
+// starting "log.Fatal:". Ordinary log output (warnings) is discarded. Properties that need finer handling install
+// their own trap on top (C12, C18).
+type globalFatalTrap struct{}
+
+func (globalFatalTrap) Write(p []byte) (int, error) {
+	pcs := make([]uintptr, 16)
+	n := runtime.Callers(2, pcs)
+	frames := runtime.CallersFrames(pcs[:n])
+	for {
+		f, more := frames.Next()
+		if strings.HasPrefix(f.Function, "log.Fatal") || strings.HasPrefix(f.Function, "log.(*Logger).Fatal") {
+			panic("log.Fatal: " + strings.TrimSpace(string(p)))
+		}
+		if !more {
+			break
+		}
+	}
+	return len(p), nil
+}
+
+func installGlobalFatalTrap() { log.SetOutput(globalFatalTrap{}) }
